@@ -31,8 +31,13 @@ func New(data []byte, opts ...EncodeOptions) (*QRCode, error) {
 
 func newQR(level Level, priority Priority, data []byte) (*QRCode, error) {
 	if len(data) == 0 {
+		// the smallest symbol by the requested priority (R7x43 is neither the narrowest nor the least-area one).
+		version, ok := calcVersion(level, priority, nil)
+		if !ok {
+			return nil, errors.New("qrcode: data too large")
+		}
 		return &QRCode{
-			Version: R7x43,
+			Version: version,
 			Level:   level,
 		}, nil
 	}
@@ -180,8 +185,13 @@ func newQR(level Level, priority Priority, data []byte) (*QRCode, error) {
 
 func newFromKanji(level Level, priority Priority, data []byte) (*QRCode, error) {
 	if len(data) == 0 {
+		// the smallest symbol by the requested priority (R7x43 is neither the narrowest nor the least-area one).
+		version, ok := calcVersion(level, priority, nil)
+		if !ok {
+			return nil, errors.New("qrcode: data too large")
+		}
 		return &QRCode{
-			Version: R7x43,
+			Version: version,
 			Level:   level,
 		}, nil
 	}
